@@ -77,6 +77,9 @@ FitsLocal(k, rep) ==
     [] k = "arity"   -> rep.t = "perr" /\ rep.txt = "wrong number of arguments"
     [] k = "reject"  -> rep.t = "perr"          \* (which error: decided by CmdTrace against the command table)
     [] k = "bad"     -> rep.t = "perr"
+    \* AUTH is answered by the proxy itself, whatever the slot table looks like: +OK, or one of the two AUTH errors
+    [] k = "auth"    -> rep.t = "ok" \/ (rep.t = "perr" /\ rep.txt = "Client sent AUTH, but no password is set")
+    [] k = "authbad" -> rep.t = "perr" /\ rep.txt \in {"invalid password", "Client sent AUTH, but no password is set"}
     [] OTHER         -> rep.t \in {"ok", "perr"}
 
 TypeFits(k, rep) ==
@@ -187,6 +190,8 @@ WaitProp(m, c, i) ==
 \* names of the nodes a scenario can redirect to (anything else is an address the proxy does not know)
 NodeNames == {"n1", "n2", "n3", "n4", "n5", "n6", "r1", "r2", "r3", "r4", "r5", "r6", "r7", "r8", "r9", "x1"}
 MasterNames == {"n1", "n2", "n3", "n4", "n5", "n6"}
+\* the abstract slot names of the three-master configurations and the master each belongs to
+HomeNode == [s \in {"A", "A2", "B", "B2", "C", "C2"} |-> CASE s \in {"A", "A2"} -> "n1" [] s \in {"B", "B2"} -> "n2" [] OTHER -> "n3"]
 \* a request one of whose fragments was redirected to a node the proxy knows: following the redirect must end with a reply (C13)
 Redirected(m, c, i) == \E f \in Frags(m, c, i) : f \in DOMAIN m.redir /\ \E k \in DOMAIN m.redir[f] : m.redir[f][k].to \in NodeNames
 
@@ -239,7 +244,11 @@ RecvViol(m, e, f) ==
                   \cup (IF resend /\ f \notin DOMAIN m.redir THEN {<<"C06", e.c, e.i, "duplicate-fragment">>} ELSE {})
       v17 == IF r.k \in LocalKinds \/ (r.k # "?" /\ HasUnowned(r) /\ Len(r.slots) = 1)
              THEN {<<"C17", e.c, e.i, "unservable-request-forwarded">>} ELSE {}
-  IN v10 \cup v10c \cup v13 \cup v06 \cup v17
+      \* With the static slot table of these scenarios (no description is ever published) a request's first
+      \* transmission goes to the master that owns the key's slot (C04; C05: the proxy and the cluster agree on the slot)
+      v04 == IF ~resend /\ ~m.topoSeen /\ f[3] \in DOMAIN HomeNode /\ e.n \in MasterNames /\ e.n # HomeNode[f[3]]
+             THEN {<<"C04", e.c, e.i, "request-at-wrong-node">>} ELSE {}
+  IN v10 \cup v10c \cup v13 \cup v06 \cup v17 \cup v04
 
 -----------------------------------------------------------------------------
 AddViol(m, vs) == [m EXCEPT !.viol = @ \cup vs]
